@@ -250,6 +250,7 @@ pub fn txw_lines(side: usize, c: &Case, o: &Outcome) -> (String, String, Vec<(St
     let (mut ever_sent, mut owes_sack) = (false, false);
     let mut free_sacks = 0u32;
     let mut after_t3 = false;
+    let (mut t3_count, mut max_rwnd) = (0u64, 0u64);
     let (mut rexmits, mut quiet_tx, mut max_over) = (0u64, 0u64, 0u64);
     let mut viol: Option<String> = None;
     let who = ["A", "B"][side];
@@ -259,7 +260,7 @@ pub fn txw_lines(side: usize, c: &Case, o: &Outcome) -> (String, String, Vec<(St
         let idle = ever_sent && unacked.is_empty() && queued.is_empty();
         match ev {
             hook::Ev::Mark("loop", _) => toks.push("L".into()),
-            hook::Ev::Mark("t3", _) => { toks.push("3".into()); after_t3 = !unacked.is_empty(); }
+            hook::Ev::Mark("t3", _) => { toks.push("3".into()); after_t3 = !unacked.is_empty(); t3_count = if unacked.is_empty() { 0 } else { t3_count + 1 }; }
             hook::Ev::Mark("tx_window", v) => {
                 toks.push(format!("W,{},{},{},{},{}", v[0], v[1], v[2], v[3], v[4]));
                 // correspondence only: the code's own window, reported as the code computed it
@@ -286,6 +287,7 @@ pub fn txw_lines(side: usize, c: &Case, o: &Outcome) -> (String, String, Vec<(St
                     for (t, _f, v) in chunks_of(p) {
                         if (t == 1 || t == 2) && v.len() >= 16 {
                             code_rwnd = u32::from_be_bytes([v[4], v[5], v[6], v[7]]) as u64;
+                            max_rwnd = max_rwnd.max(code_rwnd);
                             if best.0.is_none() { best.1 = code_rwnd; }
                         }
                         if t == 0 || t == 192 { owes_sack = true; }
@@ -295,6 +297,7 @@ pub fn txw_lines(side: usize, c: &Case, o: &Outcome) -> (String, String, Vec<(St
                             let ng = u16::from_be_bytes([v[8], v[9]]) as usize;
                             let gaps: Vec<(u32, u32)> = (0..ng).filter(|i| v.len() >= 16 + 4 * i).map(|i| (u16::from_be_bytes([v[12 + 4 * i], v[13 + 4 * i]]) as u32, u16::from_be_bytes([v[14 + 4 * i], v[15 + 4 * i]]) as u32)).collect();
                             if !matches!(best.0, Some(old) if tsn_gt(old, cum)) { code_rwnd = arw; }
+                            max_rwnd = max_rwnd.max(arw);
                             let newer = match best.0 { Some(old) => !tsn_gt(old, cum), None => true };
                             if newer {
                                 // at an unchanged cumulative TSN the receiver's window can only have shrunk
@@ -302,7 +305,7 @@ pub fn txw_lines(side: usize, c: &Case, o: &Outcome) -> (String, String, Vec<(St
                                 unacked.retain(|e| tsn_gt(e.0, cum));
                             }
                             for e in unacked.iter_mut() { let off = e.0.wrapping_sub(cum); if gaps.iter().any(|g| g.0 <= off && off <= g.1) { e.2 = true; } }
-                            if newer { after_t3 = after_t3 && !unacked.is_empty(); }
+                            if newer { after_t3 = after_t3 && !unacked.is_empty(); if unacked.is_empty() { t3_count = 0; } }
                         }
                     }
                 }
@@ -333,8 +336,11 @@ pub fn txw_lines(side: usize, c: &Case, o: &Outcome) -> (String, String, Vec<(St
                             if over > 1200 {
                                 // causes the code is known for: flight restarted by T3; an older SACK with the same cumulative TSN
                                 // (indistinguishable from a window update for the sender) taken at face value
-                                let cause = if after_t3 { ":after-t3-restarted-flight-size" } else if code_rwnd > best.1 { ":older-sack-with-same-cumulative-tsn" } else { "" };
-                                if viol.is_none() { viol = Some(format!("window-overshoot{}:{outstanding}>{}@{idx}", if after_t3 { "-after-t3" } else if code_rwnd > best.1 { "-stale-sack" } else { "" }, best.1)); }
+                                // only a bounded overshoot: one more window (plus a chunk) per T3 expiry; the stale window plus a packet
+                                let t3_excuse = after_t3 && over <= t3_count * (max_rwnd + 1200) + 1200;
+                                let stale_excuse = code_rwnd > best.1 && outstanding <= code_rwnd + 1200;
+                                let cause = if t3_excuse { ":after-t3-restarted-flight-size" } else if stale_excuse { ":older-sack-with-same-cumulative-tsn" } else { "" };
+                                if viol.is_none() { viol = Some(format!("window-overshoot{}:{outstanding}>{}@{idx}", if t3_excuse { "-after-t3" } else if stale_excuse { "-stale-sack" } else { "" }, best.1)); }
                                 fails.push((format!("window:new-data-beyond-advertised-window-plus-one-packet{cause}"),
                                     format!("{who}: {outstanding} unacknowledged bytes on the wire after new TSN {tsn}, newest advertised window {}", best.1)));
                             }
